@@ -3,7 +3,7 @@
    here and closed by `exact` of a lemma of Proofs/Fiber.v (over Q, lists) or Proofs/FiberR.v (over R).
 
    Raman off: exact.  Raman on: PARTIAL by design — the theorems cover the Euler ('numerical') scheme in
-   its zero-power limit (incl. "each lumped loss once") and first-order pump gain; agreement between the
+   its zero-power limit (incl. "each lumped loss once" and the discretisation bound) and first-order pump gain; agreement between the
    perturbative and numerical methods, perturbative orders 2-4 and the iterative co/counter algorithm are
    compared numerically by harness/c05.py only (labelled as tests in the evidence). *)
 From Coq Require Import QArith Qminmax Reals Permutation SetoidList Sorted Qreals.
@@ -13,57 +13,30 @@ From Verif Require Import Prelude Model.Fiber Proofs.Fiber Proofs.FiberR.
    Raman off — loss budget *)
 Open Scope Q_scope.
 
-(* With pairwise distinct lumped-loss positions every channel leaves the span attenuated by exactly
-   att_in + con_in + length * loss_coef(f) + sum(lumped) + con_out.
-   FULL STATEMENT (without the distinctness guard) is FALSE of the faithful model: fiber_budget_dup_refuted. *)
+(* Every channel leaves the span attenuated by exactly
+   att_in + con_in + length * loss_coef(f) + sum(lumped) + con_out — for every list of lumped losses
+   (since fix d757514e losses declared at the same position accumulate; before it the statement needed
+   pairwise distinct positions, defect F10). *)
 Theorem fiber_budget : forall fib f p a,
   lumped_in_range fib = true ->
-  distinct_positions (map fst (f_lumped fib)) = true ->
   loss_coef_at fib f = Ok a ->
   exists out, fiber_power_out fib f p = Ok out /\
     out == p - (f_att_in fib + f_con_in fib + len_m fib * a + qsum (map snd (f_lumped fib)) + f_con_out fib).
 Proof. exact Proofs.Fiber.fiber_budget. Qed.
 Print Assumptions fiber_budget.
 
-(* the guard is exactly what is needed (strictly positive losses) *)
-Theorem fiber_budget_iff : forall fib f p a out,
-  lumped_in_range fib = true -> Forall (fun zl => 0 < snd zl) (f_lumped fib) ->
-  loss_coef_at fib f = Ok a -> fiber_power_out fib f p = Ok out ->
-  (out == p - loss_budget fib a <-> distinct_positions (map fst (f_lumped fib)) = true).
-Proof. exact Proofs.Fiber.fiber_budget_iff. Qed.
-Print Assumptions fiber_budget_iff.
-
-(* F10: two lumped losses at one position -> one of them is not applied (witness: 80 km, 1.5 dB and 2 dB
-   both at 10 km: 2 dB short of the budget) *)
-Theorem fiber_budget_dup_refuted : exists fib f p a out,
-  lumped_in_range fib = true /\ Forall (fun zl => 0 < snd zl) (f_lumped fib) /\
-  loss_coef_at fib f = Ok a /\ fiber_power_out fib f p = Ok out /\
-  ~ out == p - loss_budget fib a /\ out == p - loss_budget fib a + 2.
-Proof. exact Proofs.Fiber.fiber_budget_dup_refuted. Qed.
-Print Assumptions fiber_budget_dup_refuted.
-
-(* _create_lumped_losses: the merged z / loss grid carries the total of the lumped losses iff the
-   positions are pairwise distinct (a lumped loss sitting on a grid point is kept); in general it carries
-   the FIRST loss of every distinct position *)
-Theorem lumped_merge : forall zl z, Forall (fun kv => 0 < snd kv) zl ->
-  (qsum (map snd (merge_grid 0 zl z)) == qsum (map snd zl) <-> distinct_positions (map fst zl) = true).
-Proof. exact Proofs.Fiber.lumped_merge_iff. Qed.
+(* _create_lumped_losses: the merged z / loss grid carries the total of ALL lumped losses (dB: sum,
+   linear: product), for every position list (on-grid and repeated positions included), and is sorted *)
+Theorem lumped_merge : forall zl z,
+  qsum (map snd (merge_grid Qplus 0 zl z)) == qsum (map snd zl) /\
+  qprod (map snd (merge_grid Qmult 1 zl z)) == qprod (map snd zl).
+Proof. intros zl z. split; [exact (Proofs.Fiber.lumped_merge_db zl z)|exact (Proofs.Fiber.lumped_merge_lin zl z)]. Qed.
 Print Assumptions lumped_merge.
 
-Theorem lumped_merge_general : forall zl z,
-  qsum (map snd (merge_grid 0 zl z)) == qsum (map snd (firsts [] zl)) /\
-  qprod (map snd (merge_grid 1 zl z)) == qprod (map snd (firsts [] zl)).
-Proof. intros zl z. split; [exact (Proofs.Fiber.merge_total_db zl z)|exact (Proofs.Fiber.merge_total_lin zl z)]. Qed.
-Print Assumptions lumped_merge_general.
-
-Theorem lumped_dup_refuted : exists zl z,
-  Forall (fun kv => 0 < snd kv) zl /\ ~ qsum (map snd (merge_grid 0 zl z)) == qsum (map snd zl).
-Proof. exact Proofs.Fiber.lumped_dup_refuted. Qed.
-Print Assumptions lumped_dup_refuted.
-
-Theorem distinct_positions_spec : forall ks, distinct_positions ks = true <-> NoDupA Qeq ks.
-Proof. exact Proofs.Fiber.distinct_positions_spec. Qed.
-Print Assumptions distinct_positions_spec.
+Theorem lumped_merge_sorted : forall (op : Q -> Q -> Q) one zl z,
+  StronglySorted (fun a b => fst a < fst b) (merge_grid op one zl z).
+Proof. intros op one zl z. exact (Proofs.Fiber.merge_list_sorted Q op _). Qed.
+Print Assumptions lumped_merge_sorted.
 
 (* a per-frequency loss coefficient is a convex combination of the two enclosing table entries *)
 Theorem interp_between : forall pts x v, interp_sorted pts x = Ok v ->
@@ -119,6 +92,13 @@ Theorem run_sharing_sound : forall pi els f a,
 Proof. exact Proofs.Fiber.propagate_path_with_sound. Qed.
 Print Assumptions run_sharing_sound.
 
+Theorem cd_table_pi_indep : forall pi pi' fib f pts v, f_disp fib = DispPerFreq pts ->
+  ~ pi == 0 -> ~ pi' == 0 ->
+  chromatic_dispersion pi fib f = Ok v ->
+  exists v', chromatic_dispersion pi' fib f = Ok v' /\ v == v'.
+Proof. exact Proofs.Fiber.cd_table_pi_indep. Qed.
+Print Assumptions cd_table_pi_indep.
+
 (* ================================================================================================
    Raman on, Euler scheme: zero-power limit and "each lumped loss once" *)
 Theorem euler_zero_power : forall alpha cr p0 grid g g',
@@ -140,9 +120,8 @@ Proof. exact Proofs.Fiber.grid_factor_split. Qed.
 Print Assumptions euler_factor_split.
 
 Theorem euler_lumped_once : forall zl z' L,
-  distinct_positions (map fst zl) = true ->
   (forall kv, In kv zl -> fst kv < L) -> (forall x, In x z' -> x <= L) ->
-  qprod (map snd (removelast (merge_grid 1 zl (z' ++ [L])))) == qprod (map snd zl).
+  qprod (map snd (removelast (merge_grid Qmult 1 zl (z' ++ [L])))) == qprod (map snd zl).
 Proof. exact Proofs.Fiber.euler_lumped_once. Qed.
 Print Assumptions euler_lumped_once.
 
@@ -170,6 +149,15 @@ Theorem fiber_pmd_sq : forall coef L, 0 <= L -> (coef * sqrt L) * (coef * sqrt L
 Proof. exact Proofs.FiberR.fiber_pmd_sq. Qed.
 Print Assumptions fiber_pmd_sq.
 
+(* the zero-power Euler attenuation vs exp(-alpha L): ln prod_k (1 - alpha dz_k) + alpha sum_k dz_k lies in
+   [-2 sum_k (alpha dz_k)^2, 0] when every alpha dz_k <= 1/2 (the tolerance used by the low-power test) *)
+Theorem euler_discretisation_bound : forall a grid,
+  Forall (fun dz => 0 <= Q2R a * Q2R dz <= 1 / 2) (grid_dzs grid) ->
+  let xs := map (fun dz => Q2R a * Q2R dz) (grid_dzs grid) in
+  - 2 * rsum (map (fun x => x * x) xs) <= ln (Q2R (step_prod a grid)) + rsum xs <= 0.
+Proof. exact Proofs.FiberR.euler_discretisation_bound. Qed.
+Print Assumptions euler_discretisation_bound.
+
 (* perturbative solver, first order: pumps with non-negative Raman efficiency only add gain *)
 Theorem pump_gain_nonneg : forall base z ps, 0 <= z ->
   Forall (fun p => let '(cr, pw, al) := p in 0 <= cr /\ 0 <= pw /\ 0 < al) ps ->
@@ -189,10 +177,16 @@ Definition ex_fiber : fiber :=
 Ltac vc := vm_compute; reflexivity.
 
 Example ex_budget_hyps : exists a out,
-  lumped_in_range ex_fiber = true /\ distinct_positions (map fst (f_lumped ex_fiber)) = true /\
+  lumped_in_range ex_fiber = true /\
   loss_coef_at ex_fiber 194500000000000 = Ok a /\ a == 39 # 200000 /\
   fiber_power_out ex_fiber 194500000000000 0 = Ok out /\ out == - (213 # 10).
-Proof. do 2 eexists. split; [vc|]. split; [vc|]. split; [vc|]. split; [vc|]. split; vc. Qed.
+Proof. do 2 eexists. split; [vc|]. split; [vc|]. split; [vc|]. split; vc. Qed.
+
+(* regression witness of F10 (80 km, 0.2 dB/km, 1.5 dB and 2 dB both at 10 km): 21.7 dB, not 19.7 dB *)
+Example ex_duplicate_position : exists out,
+  lumped_in_range wit_fiber = true /\
+  fiber_power_out wit_fiber 193100000000000 0 = Ok out /\ out == - (217 # 10).
+Proof. eexists. split; [vc|]. split; vc. Qed.
 
 Example ex_path :
   exists r, propagate_path 3 [EFiber ex_fiber; EAmp (1 # 10) (1 # 2); ERoadm [(None, 3 # 10)] [(None, 3 # 2)]; EOther; EFiber wit_fiber]
@@ -200,11 +194,10 @@ Example ex_path :
 Proof. eexists. split; [vc|]. split; vc. Qed.
 
 Example ex_euler_lumped_once :
-  distinct_positions (map fst [(25000, 7 # 10); (50000, 1 # 2)]) = true /\
-  qprod (map snd (removelast (merge_grid 1 [(25000, 7 # 10); (50000, 1 # 2)] (solver_grid 100 10000 80000)))) == 7 # 20.
-Proof. split; vc. Qed.
+  qprod (map snd (removelast (merge_grid Qmult 1 [(25000, 7 # 10); (50000, 1 # 2); (25000, 1 # 2)] (solver_grid 100 10000 80000)))) == 7 # 40.
+Proof. vc. Qed.
 
-Definition ex_grid : list (Q * Q) := merge_grid 1 [(25000, 7 # 10)] (solver_grid 100 10000 80000).
+Definition ex_grid : list (Q * Q) := merge_grid Qmult 1 [(25000, 7 # 10)] (solver_grid 100 10000 80000).
 Definition ex_loss : list Q := euler_g [1 # 20000; 1 # 25000] [[0; 1 # 3]; [- (1 # 3); 0]] [0; 0] ex_grid [1; 1].
 Example ex_euler_zero :
   nth 0 ex_loss 0 == grid_factor (1 # 20000) ex_grid /\ nth 1 ex_loss 0 == grid_factor (1 # 25000) ex_grid /\
